@@ -45,6 +45,8 @@ func run(r *mon.Report, tier string, idx int, rng *rand.Rand) {
 	cfg.Catalog.Reserved = rng.Intn(3) == 0
 	cfg.PerPoolCatalog = rng.Intn(3) == 0
 	cfg.Pool.PMinValues = 0.15
+	cfg.Pool.PTaint = 0.4
+	cfg.Pool.PStartupTaint = 0.4
 	s := common.Build(rng, cfg)
 	e := s.Env
 	e.Provider.Policy = []string{"cheapest", "dearest", "largest", "smallest", "random"}[rng.Intn(5)]
@@ -574,7 +576,7 @@ func optionFeasible(r *mon.Report, nc *provscheduling.NodeClaim, it *cloudprovid
 func init() {
 	reg.Register(&reg.Prop{
 		ID: "C01", Level: "exploration",
-		Rule: "each case = generated world (catalog 3-8 types with unavailable/overridden/reserved offerings, 1-3 NodePools with requirements over all operators, taints, custom labels, minValues; 0-2 daemonsets; managed nodes grown through the real pipeline to stages launched/node-appeared/registered/initialized; optional unmanaged and deleting nodes) + batch of 1-12 pending pods with random node-level constraints, scheduled by the real Provisioner.Schedule under PRNG-chosen {preference policy, minValues policy, parallelism, ReservedCapacity gate}. Non-trivial = at least one placement was judged by the admissibility oracle; distinct by (target kinds x constraint kinds present on judged pods x configuration).",
+		Rule:  "each case = generated world (catalog 3-8 types with unavailable/overridden/reserved offerings, 1-3 NodePools with requirements over all operators, taints, custom labels, minValues; 0-2 daemonsets; managed nodes grown through the real pipeline to stages launched/node-appeared/registered/initialized; optional unmanaged and deleting nodes) + batch of 1-12 pending pods with random node-level constraints, scheduled by the real Provisioner.Schedule under PRNG-chosen {preference policy, minValues policy, parallelism, ReservedCapacity gate}. Non-trivial = at least one placement was judged by the admissibility oracle; distinct by (target kinds x constraint kinds present on judged pods x configuration).",
 		Cases: cases, Run: run,
 		MinObserved: map[string]int{"placements_checked": 50, "launch_options_checked": 50},
 	})
